@@ -134,7 +134,9 @@ func (k *Kernel) procMain(p *Proc) {
 			}
 		}()
 
-		_ = tx.SetFlag(option.RepositoryFlag, k.Dir)
+		if !k.sc.Knobs.RelRepo {
+			_ = tx.SetFlag(option.RepositoryFlag, k.Dir)
+		}
 		wt := spec.WaitTimeoutS
 		if wt <= 0 {
 			wt = 10
